@@ -155,11 +155,34 @@ type scriptedChain struct {
 	acctArgs []ton.AccountID
 	seqArgs  []ton.AccountID
 	observed []pollAns
+	// context handling: the chain honours ctx (returns ctx.Err() once cancelled); when cancelAt >= 0 it cancels the
+	// context itself right before its cancelAt-th call (0 = GetAccountState, 1 = SendMessage, 2+i = poll i)
+	cancelAt int
+	cancel   func()
+	calls    int
+	ctxErrs  int
+}
+
+// enter is called at the start of every interface method
+func (b *scriptedChain) enter(ctx context.Context) error {
+	if b.cancel != nil && b.cancelAt >= 0 && b.calls >= b.cancelAt {
+		b.cancel()
+	}
+	b.calls++
+	if err := ctx.Err(); err != nil {
+		b.ctxErrs++
+		return err
+	}
+	return nil
 }
 
 func (b *scriptedChain) GetSeqno(ctx context.Context, account ton.AccountID) (uint32, error) {
 	i := len(b.observed)
 	b.seqArgs = append(b.seqArgs, account)
+	if err := b.enter(ctx); err != nil {
+		b.observed = append(b.observed, pollAns{0, true})
+		return 0, err
+	}
 	var p pollAns
 	switch {
 	case len(b.polls) == 0:
@@ -178,6 +201,9 @@ func (b *scriptedChain) GetSeqno(ctx context.Context, account ton.AccountID) (ui
 
 func (b *scriptedChain) SendMessage(ctx context.Context, payload []byte) (uint32, error) {
 	b.sent = append(b.sent, append([]byte{}, payload...))
+	if err := b.enter(ctx); err != nil {
+		return 0, err
+	}
 	if b.sendErr {
 		return 0, errors.New("scripted send error")
 	}
@@ -186,6 +212,9 @@ func (b *scriptedChain) SendMessage(ctx context.Context, payload []byte) (uint32
 
 func (b *scriptedChain) GetAccountState(ctx context.Context, accountID ton.AccountID) (tlb.ShardAccount, error) {
 	b.acctArgs = append(b.acctArgs, accountID)
+	if err := b.enter(ctx); err != nil {
+		return tlb.ShardAccount{}, err
+	}
 	if b.acctErr {
 		return tlb.ShardAccount{}, errors.New("scripted account error")
 	}
